@@ -405,6 +405,66 @@ func RawReferrers(v View, d string) []map[string]any {
 	return out
 }
 
+// IndexSchemaProblems checks the RAW JSON of an index.json against the parts of the OCI image-index
+// schema that unmarshalling into Go types does not enforce: a top-level object, schemaVersion 2,
+// "manifests" present and an array (not null), every entry an object with a string mediaType, a string
+// digest, an integer size >= 0, and annotations (when present) an object of strings.
+func IndexSchemaProblems(raw []byte) []string {
+	var problems []string
+	var top map[string]json.RawMessage
+	if err := json.Unmarshal(raw, &top); err != nil || top == nil {
+		return []string{"index.json is not a JSON object"}
+	}
+	if sv, ok := top["schemaVersion"]; !ok || strings.TrimSpace(string(sv)) != "2" {
+		problems = append(problems, "index.json schemaVersion is "+string(sv)+", not the number 2")
+	}
+	if mt, ok := top["mediaType"]; ok {
+		var sVal string
+		if json.Unmarshal(mt, &sVal) != nil {
+			problems = append(problems, "index.json mediaType is not a string")
+		}
+	}
+	ms, ok := top["manifests"]
+	if !ok {
+		return append(problems, `index.json has no "manifests" field (the image-index schema requires an array)`)
+	}
+	var entries []json.RawMessage
+	if t := strings.TrimSpace(string(ms)); !strings.HasPrefix(t, "[") || json.Unmarshal(ms, &entries) != nil {
+		return append(problems, `index.json "manifests" is `+truncate(string(ms), 40)+`, not an array`)
+	}
+	for i, e := range entries {
+		var obj map[string]json.RawMessage
+		if json.Unmarshal(e, &obj) != nil || obj == nil {
+			problems = append(problems, fmt.Sprintf("index.json entry %d is not an object", i))
+			continue
+		}
+		for _, k := range []string{"mediaType", "digest"} {
+			var sVal string
+			if v, ok := obj[k]; !ok || json.Unmarshal(v, &sVal) != nil || sVal == "" {
+				problems = append(problems, fmt.Sprintf("index.json entry %d has no string %s", i, k))
+			}
+		}
+		var size json.Number
+		if v, ok := obj["size"]; !ok || json.Unmarshal(v, &size) != nil || strings.ContainsAny(size.String(), ".eE-") {
+			problems = append(problems, fmt.Sprintf("index.json entry %d has no non-negative integer size", i))
+		}
+		if v, ok := obj["annotations"]; ok {
+			var ann map[string]string
+			if t := strings.TrimSpace(string(v)); !strings.HasPrefix(t, "{") || json.Unmarshal(v, &ann) != nil {
+				problems = append(problems, fmt.Sprintf("index.json entry %d has annotations that are not an object of strings", i))
+			}
+		}
+	}
+	return problems
+}
+
+func truncate(s string, n int) string {
+	if len(s) > n {
+		return s[:n] + "..."
+	}
+	return s
+}
+
 // LayoutProblems checks the structural validity of a layout directory:
 // oci-layout marker, index.json, at most one entry per tag, every file under a
 // digest name has that digest. Temp files are returned separately.
@@ -425,6 +485,8 @@ func LayoutProblems(dir string) (problems []string, tmpFiles []string) {
 	v := OpenLayout(dir)
 	if v.IdxErr != nil {
 		problems = append(problems, "index.json: "+v.IdxErr.Error())
+	} else if raw, err := os.ReadFile(filepath.Join(dir, "index.json")); err == nil {
+		problems = append(problems, IndexSchemaProblems(raw)...)
 	}
 	seen := map[string]int{}
 	for _, e := range v.Entries {
